@@ -148,6 +148,17 @@ CORPUS = [
     Gr("abc", [("S", "Aa"), ("S", "bAc"), ("S", "Bc"), ("S", "bBa"), ("A", "c"), ("B", "c")], "S", "lr1-not-lalr"),
     Gr("ab", [("S", "ASb"), ("S", "b"), ("A", "")], "S", "eps-before-recursion"),
     Gr("ab", [("S", "aA"), ("A", "S"), ("A", "b"), ("A", "")], "S", "mutual-right-recursion"),
+    # sequences: consecutive grammars reuse symbol names with different productions (not nullable -> nullable,
+    # different FIRST sets, nullable -> not nullable); the builder must not carry anything over
+    Gr("abc", [("S", "aBC"), ("B", "b"), ("C", "c")], "S", "seq1-plain"),
+    Gr("abc", [("S", "aBC"), ("B", "b"), ("C", "c"), ("C", "")], "S", "seq1-C-nullable"),
+    Gr("abc", [("S", "ABc"), ("A", "a"), ("B", "b")], "S", "seq2-plain"),
+    Gr("abc", [("S", "ABc"), ("A", "a"), ("A", ""), ("B", "b"), ("B", "")], "S", "seq2-both-nullable"),
+    Gr("ab", [("S", "XY"), ("X", "a"), ("Y", "b")], "S", "seq3-Y-b"),
+    Gr("ac", [("S", "XY"), ("X", "a"), ("Y", "c")], "S", "seq3-Y-c"),
+    Gr("ab", [("S", "XYZ"), ("X", "a"), ("Y", ""), ("Z", "b"), ("Z", "")], "S", "seq4-nullable-tail"),
+    Gr("ab", [("S", "XYZ"), ("X", "a"), ("Y", "b"), ("Z", "b")], "S", "seq4-plain-tail"),
+    Gr("ab", [("S", "XYZ"), ("X", "a"), ("Y", ""), ("Z", "b"), ("Z", "")], "S", "seq4-nullable-tail-again"),
 ]
 
 
@@ -335,20 +346,51 @@ def build(mods, g):
     return b
 
 
-def dump_tables(mods, g, action_table, goto_table):
+def dump_tables(mods, g, action_table, goto_table, problems=None):
+    """Total: never raises on a malformed table.  Symbols that are not symbols of the grammar get codes
+    900, 901, … (so the Lean validator sees and rejects them); every irregularity is appended to `problems`."""
     lr = mods[0]
-    acts = []
-    for (s, t), a in sorted(action_table.items(), key=lambda kv: (kv[0][0], g.code.get(kv[0][1], -1))):
-        if isinstance(a, lr.Shift):
-            acts.append(f"{s},{g.code[t]},S,{a.to_state}")
-        elif isinstance(a, lr.Reduce):
-            acts.append(f"{s},{g.code[t]},R,{a.rule}")
-        elif isinstance(a, lr.Accept):
-            acts.append(f"{s},{g.code[t]},A,{a.rule}")
+    problems = [] if problems is None else problems
+    foreign = {}
+
+    def code(sym):
+        if isinstance(sym, str) and sym in g.code:
+            return g.code[sym]
+        k = repr(sym)
+        if k not in foreign:
+            foreign[k] = 900 + len(foreign)
+            problems.append(f"foreign-symbol {sym!r}")
+        return foreign[k]
+
+    def nat(x):
+        return isinstance(x, int) and not isinstance(x, bool) and x >= 0
+
+    acts, gotos = [], []
+    try:
+        aitems, gitems = list(action_table.items()), list(goto_table.items())
+    except Exception as e:  # noqa
+        problems.append(f"malformed tables are not dicts: {type(e).__name__}")
+        aitems, gitems = [], []
+    for key, a in aitems:
+        if not (isinstance(key, tuple) and len(key) == 2 and nat(key[0])):
+            problems.append(f"malformed action key {key!r}")
+            continue
+        if isinstance(a, lr.Shift) and nat(a.to_state):
+            acts.append((key[0], code(key[1]), "S", a.to_state))
+        elif isinstance(a, lr.Accept) and nat(a.rule):
+            acts.append((key[0], code(key[1]), "A", a.rule))
+        elif isinstance(a, lr.Reduce) and nat(a.rule):
+            acts.append((key[0], code(key[1]), "R", a.rule))
         else:
-            raise AssertionError("unknown action " + repr(a))
-    gotos = [f"{s},{g.code[n]},{to}" for (s, n), to in sorted(goto_table.items(), key=lambda kv: (kv[0][0], g.code[kv[0][1]]))]
-    return (";".join(acts) or "-") + " " + (";".join(gotos) or "-")
+            problems.append(f"malformed action {a!r} at {key!r}")
+    for key, to in gitems:
+        if not (isinstance(key, tuple) and len(key) == 2 and nat(key[0]) and nat(to)):
+            problems.append(f"malformed goto entry {key!r}: {to!r}")
+            continue
+        gotos.append((key[0], code(key[1]), to))
+    at = ";".join(",".join(map(str, e)) for e in sorted(acts, key=lambda e: (e[0], e[1]))) or "-"
+    gt = ";".join(",".join(map(str, e)) for e in sorted(gotos, key=lambda e: (e[0], e[1]))) or "-"
+    return at + " " + gt
 
 
 def show_val(g, v):
@@ -357,13 +399,13 @@ def show_val(g, v):
         return "None"
     if v[0] == "l":
         val = 0 if v[2] == "EOF" else v[2]
-        return f"{g.code[v[1]]}.{val}"
+        return f"{g.code.get(v[1], 999)}.{val}"
     return "(" + ",".join([str(v[1])] + [show_val(g, k) for k in v[2:]]) + ")"
 
 
 def enc_val(g, v, out):
     if v[0] == "l":
-        out += [1, g.code[v[1]], 0 if v[2] == "EOF" else v[2]]
+        out += [1, g.code.get(v[1], 999), 0 if v[2] == "EOF" else v[2]]
     else:
         out += [0, v[1], len(v) - 2]
         for k in v[2:]:
@@ -413,8 +455,8 @@ def damaged_tables(rng, mods, b, ndamaged=3):
     for _ in range(ndamaged):
         a2, g2 = dict(at), dict(gt)
         k = rng.randrange(6)
-        keys = sorted(a2, key=lambda kv: (kv[0], b.g.code[kv[1]]))
-        gkeys = sorted(g2, key=lambda kv: (kv[0], b.g.code[kv[1]]))
+        keys = sorted(a2, key=lambda kv: (kv[0], b.g.code.get(kv[1], 999), str(kv[1])))
+        gkeys = sorted(g2, key=lambda kv: (kv[0], b.g.code.get(kv[1], 999), str(kv[1])))
         if k == 0 and gkeys:
             del g2[rng.choice(gkeys)]
         elif k == 1 and gkeys:
@@ -441,11 +483,84 @@ class Case:
     pass
 
 
+HISTORY = {}      # id(mods) -> grammars built so far in this process, in order
+
+
+def fingerprint(c):
+    """everything the real code produced for a grammar (builder verdict, tables, first sets, parse results)"""
+    return {"status": c.b.status, "tables": c.tables, "problems": c.table_problems, "first": c.first_impl,
+            "impl": None if c.impl is None else [show_val(c.g, r[1]) if r[0] == "ok" else r[1] for r in c.impl]}
+
+
+def isolated_run(g, n, sequence):
+    """fingerprint of g computed in a FRESH python process after building `sequence` there first"""
+    import os
+    import subprocess
+    import sys
+    req = json.dumps({"grammar": g.to_json(), "n": n, "sequence": [h.to_json() for h in sequence]})
+    p = subprocess.run([sys.executable, str(Path(__file__).resolve()), "--isolated"], input=req, capture_output=True,
+                       text=True, timeout=600, env=dict(os.environ, PYTHONHASHSEED=os.environ.get("PYTHONHASHSEED", "0")))
+    if p.returncode != 0:
+        from harness import common
+        raise common.BrokenCheck("isolated worker failed: " + p.stderr[-800:])
+    return json.loads(p.stdout.splitlines()[-1])
+
+
+def isolation_check(ctx, mods, c, nfail_before):
+    """The property quantifies over grammars, not over build histories: a grammar whose in-sequence verdict
+    fails is rebuilt alone in a fresh process.  Same outputs -> the failures stand.  Different outputs -> the
+    builder keeps state between grammars; the failures are replaced by one failure naming a short sequence."""
+    g, n = c.g, c.n
+    here = fingerprint(c)
+    alone = isolated_run(g, n, [])
+    if alone == here:
+        ctx.count("isolation_confirmed")
+        return
+    ctx.count("isolation_differs")
+    hist = HISTORY.get(id(mods), [])[:c.hist_len]
+    seq = hist
+    if getattr(ctx, "c32_shrink_budget", 2) > 0 and hist:
+        ctx.c32_shrink_budget = getattr(ctx, "c32_shrink_budget", 2) - 1
+
+        def leaks(sq):
+            return isolated_run(g, n, sq) != alone
+        if leaks(hist):
+            lo, hi = 0, len(hist)          # smallest prefix that already contaminates g
+            while hi - lo > 1:
+                mid = (lo + hi) // 2
+                if leaks(hist[:mid]):
+                    hi = mid
+                else:
+                    lo = mid
+            seq = [hist[hi - 1]] if leaks([hist[hi - 1]]) else hist[:hi]
+    diff = "builder verdict / tables"
+    tokens = None
+    if here["impl"] is not None and alone["impl"] is not None:
+        for w, a, b in zip(c.strings, here["impl"], alone["impl"]):
+            if a != b:
+                tokens, diff = w, f"on {' '.join(w) or '<empty>'}: in sequence {a}, alone {b}"
+                break
+    old = [f["signature"] for f in ctx.failures[nfail_before:]]
+    del ctx.failures[nfail_before:]
+    case = {"grammar": g.to_json(), "maxlen": n, "sequence": [h.to_json() for h in seq]}
+    if tokens is not None:
+        case["tokens"] = tokens
+    ctx.fail("builder:state-leaks-between-grammars",
+             f"the parser built for {g.show()} depends on the grammars built before it in the same process "
+             f"(after {'; then '.join(h.show() for h in seq[-2:])}): {diff}; in-sequence failures: {sorted(set(old))}",
+             case, table_problems=here["problems"][:5])
+
+
 def prepare(ctx, mods, g, n, rng, with_damage):
     """build with the real builder and produce the driver requests for grammar g"""
     c = Case()
     c.g, c.n = g, n
+    hist = HISTORY.setdefault(id(mods), [])
+    c.hist_len = len(hist)          # the grammars built before this one in this process
+    hist.append(g)
     c.b = build(mods, g)
+    c.table_problems = []
+    c.tables = None
     c.reqs = []
     c.strings = list(all_strings(g.terms, n))
     gl = g.lean()
@@ -462,7 +577,7 @@ def prepare(ctx, mods, g, n, rng, with_damage):
     c.impl = None
     c.damaged = []
     if c.b.status == "ok":
-        tl = dump_tables(mods, g, c.b.parser.action_table, c.b.parser.goto_table)
+        tl = dump_tables(mods, g, c.b.parser.action_table, c.b.parser.goto_table, c.table_problems)
         c.tables = tl
         c.reqs.append(("safe", f"safe {gl} {tl}"))
         c.reqs.append(("all", f"all {gl} {tl} {n}"))
@@ -477,7 +592,7 @@ def prepare(ctx, mods, g, n, rng, with_damage):
         if with_damage:
             lr = mods[0]
             nd = min(n, 4)
-            for a2, g2 in damaged_tables(rng, mods, c.b, 3 if ctx.thorough else 2):
+            for a2, g2 in (damaged_tables(rng, mods, c.b, 3 if ctx.thorough else 2) if not c.table_problems else []):
                 p2 = lr.LrParser(c.b.G, a2, g2)
                 tl2 = dump_tables(mods, g, a2, g2)
                 ws = list(all_strings(g.terms, nd))
@@ -532,6 +647,14 @@ def evaluate(ctx, c, replies):
     ctx.count("tables_with_resolved_conflicts" if resolved else "tables_conflict_free")
     # ---- validator on the real table ------------------------------------------------------
     safe = replies["safe"][0]
+    if c.table_problems:
+        foreign = [p for p in c.table_problems if p.startswith("foreign-symbol")]
+        ctx.fail("generate_tables:foreign-symbol-in-table" if foreign else "generate_tables:malformed-table",
+                 f"the tables built for {g.show()} are not tables of this grammar: {'; '.join(c.table_problems[:4])}",
+                 case, tables=c.tables)
+        if safe == "ok true":
+            ctx.broken.append({"kind": "validator", "msg": "tableSafe accepts a table with foreign/malformed entries", "case": case,
+                               "tables": c.tables})
     ctx.count("eval_tablesafe")
     ctx.count("programs")
     model = replies["all"][0][3:].split("|")
@@ -575,7 +698,7 @@ def evaluate(ctx, c, replies):
             ctx.fail("parse:internal-error:" + r[1], f"parser for {g.show()} raised {r[1]} on {' '.join(w) or '<empty>'}", wc)
     if safe != "ok true":
         ctx.count("tablesafe_rejected")
-        if not found_failure:
+        if not found_failure and not c.table_problems:
             ctx.broken.append({"kind": "validator", "msg": f"tableSafe rejects the real tables of {g.show()}: {safe}", "case": case,
                                "tables": c.tables})
     if accepted_long and rejected:
@@ -600,7 +723,16 @@ def evaluate(ctx, c, replies):
 def run_cases(ctx, mods, grammars, n, rng, with_damage=True, workers=8):
     """prepare every grammar with the real builder/parser, ask the Lean driver (several driver
     processes side by side, each gets a slice of the grammars), evaluate"""
-    cases = [prepare(ctx, mods, g, n, rng, with_damage) for g in grammars]
+    cases = []
+    for g in grammars:
+        try:
+            cases.append(prepare(ctx, mods, g, n, rng, with_damage))
+        except Exception:  # noqa  -- the real builder/parser are guarded inside: this is the harness itself
+            import traceback
+            from harness import common
+            rp = common.write_replay(ctx, "harness-error", {"case": {"grammar": g.to_json(), "maxlen": n},
+                                                              "traceback": traceback.format_exc()[-1500:]})
+            raise common.BrokenCheck(f"harness error while preparing {g.show()} (replay {rp}): " + traceback.format_exc()[-600:])
     workers = max(1, min(workers, len(cases) // 4 or 1))
     slices = [cases[i::workers] for i in range(workers)]
 
@@ -623,7 +755,11 @@ def run_cases(ctx, mods, grammars, n, rng, with_damage=True, workers=8):
                 k += 1
             replies[id(c)] = rep
     for c in cases:
+        nf = len(ctx.failures)
         evaluate(ctx, c, replies[id(c)])
+        if len(ctx.failures) > nf and c.b.status != "rejected" and getattr(ctx, "c32_iso_budget", 5) > 0:
+            ctx.c32_iso_budget = getattr(ctx, "c32_iso_budget", 5) - 1
+            isolation_check(ctx, mods, c, nf)
     return cases
 
 
@@ -694,7 +830,22 @@ def check(ctx):
 def replay(ctx, rp):
     mods = ppci_mods()
     case = rp.get("case") or {}
-    if "grammar" in case:
+    if "grammar" in case and "sequence" in case:
+        g = Gr.from_json(case["grammar"])
+        seq = [Gr.from_json(h) for h in case["sequence"]]
+        n = case.get("maxlen", 5)
+        alone, after = isolated_run(g, n, []), isolated_run(g, n, seq)
+        print("grammar:", g.show())
+        print("sequence built first:", " || ".join(h.show() for h in seq))
+        for k in ("status", "tables", "problems", "first"):
+            print(f"{k}: alone {alone[k]} | after sequence {after[k]}")
+        if alone["impl"] and after["impl"]:
+            for w, a, b in zip(all_strings(g.terms, n), alone["impl"], after["impl"]):
+                if a != b:
+                    print("tokens", " ".join(w) or "<empty>", ": alone", a, "| after sequence", b)
+        if alone != after:
+            ctx.fail("builder:state-leaks-between-grammars", f"{g.show()} is built differently after the sequence", case)
+    elif "grammar" in case:
         g = Gr.from_json(case["grammar"])
         cs = run_cases(ctx, mods, [g], case.get("maxlen", 5), ctx.rng, with_damage=False)
         c = cs[0]
@@ -710,3 +861,15 @@ def replay(ctx, rp):
             print("spec (in language):", out[1])
     else:
         check(ctx)
+
+
+if __name__ == "__main__":
+    import sys
+    if "--isolated" in sys.argv:
+        sys.path.insert(0, str(VERIF))
+        rq = json.loads(sys.stdin.read())
+        _mods = ppci_mods()
+        for _h in rq["sequence"]:
+            prepare(None, _mods, Gr.from_json(_h), 0, None, False)
+        _c = prepare(None, _mods, Gr.from_json(rq["grammar"]), rq["n"], None, False)
+        print(json.dumps(fingerprint(_c)))
